@@ -220,4 +220,15 @@ theorem closed_literal_is_one_symbol (n : Nat) (q : Char) (body : Tok) (ts : Lis
 example : symbolsF 5 ["read_cache".toList, "s\"\"".toList, "dup".toList] =
     some [["READ_CACHE".toList], ["s\"\"".toList], ["DUP".toList]] := by decide
 
+/-- known finding K8, as a fact about the model: whitespace inside a string literal is lost — the two
+    spaces of `s"a  b"` leave no trace in the symbol (the implementation joins the words with one) -/
+example : symbols "push s\"a  b\"".toList = some [["PUSH".toList], ["s\"a".toList, "b\"".toList]] ∧
+    symbols "push s\"a b\"".toList = some [["PUSH".toList], ["s\"a".toList, "b\"".toList]] := by decide
+
+/-- … and an unquoted / upper-case-prefixed string value is upper-cased like an instruction name -/
+example : symbols "push shello".toList = some [["PUSH".toList], ["SHELLO".toList]] := by decide
+
+/-- an unterminated literal, a lone `s`, a trailing `@=` are errors -/
+example : symbols "push s\"abc def".toList = none ∧ symbols "push s".toList = none ∧ symbols "true @=".toList = none := by decide
+
 end TV.C11
